@@ -15,7 +15,6 @@ from . import common
 def run(ctx):
     P = semcheck.gen_programs(ctx.seed * 7919 + 221, ctx.pick(140, 1500), "strat", max_worlds=150, p_edge=False)
     P += common.family_small(ctx.pick(80, 800), ctx.seed + 22000)
-    P = [p for p in P if not semcheck.triggers(p).get("repeated_var_query")]
     J = semcheck.judge(P, nproc=ctx.nproc)
     jobs, idx = [], []
     for i, (p, j) in enumerate(zip(P, J)):
